@@ -354,7 +354,7 @@ def misc_cases(tier):
         nm |= neighbourhood('ab1', 'a -+/:.@\n')
         for s in sorted(nm):
             cases.append(('name', kind, s))
-    for n in (0, 1, 1023, 1025, 5000):
+    for n in (0, 1, 1022, 1023, 1024, 1025, 5000):   # the documented limit: shorter than BOOST_SCRIPT_SIZE (1024) characters
         cases.append(('boot', n))
     for cls in ('MeasurementData', 'UserData', 'LayoutData'):
         for delta in (-2, -1, 0, 1, 2, 1000):      # delta 0 (exactly the limit): either verdict, but it must be consistent
@@ -654,4 +654,5 @@ def run(report):
     report.assumptions += ['the documented language of a label field is its VALIDATORS pattern under whole-string matching and its '
                            'LAMBDA_VALIDATORS range; candidate alphabets are ASCII plus a few non-ASCII letters',
                            'numa has no pattern: only canonical decimals are decided, other int()-parseable spellings are unspecified',
-                           'size limits: limit-1 must be accepted, limit+1 rejected, the limit itself is unspecified']
+                           'blob size limits: limit-1 must be accepted, limit+1 rejected, the limit itself may go either way but the same way on '
+                           'every path; boot script: the pinned rule "shorter than 1024 characters" (1023 accepted, 1024 rejected)']
